@@ -1,12 +1,15 @@
 """C06 - leg fusion is a lossless, consistently ordered bijection.
 
-proof gate (coq/Props/C06.v) + correspondence LegPipe / LegCharge operations <-> Model/Pipe.v, Model/Leg.v
+proof gate (coq/Props/C06.v) + correspondence LegPipe / LegCharge operations <-> Model/Pipe.v, Model/Leg.v, Model/PipeOps.v
 (vm_compute on every generated case, exhaustive over small legs) + oracles written from the documentation
-(bijection, fusion rule, q_map layout, to_qflat before/after, dense reshape/transposition of combine_legs/split_legs).
+(bijection, fusion rule, q_map layout, to_qflat before/after, dense reshape/transposition of combine_legs/split_legs;
+c06_ops.py: every public method that returns a leg, applied to legs and to pipes, with the pipe contract on every
+resulting LegPipe).
 """
 import itertools
 
 import common
+import c06_ops
 from common import CoqRaw, coq_lit, Nat
 
 F2A = 'C06:LegPipe.outer_conj:qconj=-1-not-flipped'
@@ -111,6 +114,22 @@ def pipe_case_lit(case, r):
         zll(r['charges']), zl(r['slices']), zll(r['q_map']), zl(r['q_map_slices']), mif)
 
 
+def pobs_lit(r):
+    mif = '(@nil (option Z))' if not r['mif'] else '[' + '; '.join('(@None Z)' if k is None else '(Some (%d))' % k for k in r['mif']) + ']'
+    return '(%s, %s, %s, %s, %s)' % (zll(r['charges']), zl(r['slices']), zll(r['q_map']), zl(r['q_map_slices']), mif)
+
+
+def pipe_ops_case_lit(case, coq_ops):
+    """(chinfo, legs, qconj, sort, bunch, [(op, (stored legs of the result, qconj of the result, observables of the result))])"""
+    mods = case['mods']
+    legs = '[' + '; '.join(leg_lit(mods, l) for l in case['legs']) + ']'
+    ops = []
+    for code, r in coq_ops:
+        rl = '[' + '; '.join(leg_lit(mods, l) for l in r['legs']) + ']' if r['legs'] else '(@nil (list (Z * list Z) * Z))'
+        ops.append('(%d%%nat, (%s, (%d), %s))' % (code, rl, r['qconj'], pobs_lit(r)))
+    return '(%s, %s, (%d), %s, %s, [%s])' % (zl(mods), legs, case['qconj'], bl(case['sort']), bl(case['bunch']), '; '.join(ops))
+
+
 def leg_case_lit(case, r):
     mods = case['mods']
     n = sum(case['leg'][0])
@@ -148,12 +167,16 @@ def lexsorted(rows):
     return all(keys[i] <= keys[i + 1] for i in range(len(keys) - 1))
 
 
-def pipe_oracle(case, r):
-    """returns list of (match_key or None, text)"""
+def pipe_core_oracle(case, r):
+    """the pipe contract for a LegPipe described by r (charges, slices, q_map, q_map_slices, flags, qflat, map_incoming_flat on
+    every index tuple) whose incoming legs are case['legs'] and whose direction is case['qconj']; case['sort'] / case['bunch']
+    are what was requested at construction (False when unknown).  Used for the constructed pipes and for every pipe
+    returned by a public method (c06_ops.py).  returns list of (match_key or None, text)"""
     probs = []
     mods = case['mods']
     legs = case['legs']
     nl_ = len(legs)
+    leg_qflat = [c06_ops.qflat_of(mods, l[0], l[1]) for l in legs]      # recomputed from the leg data, not from the pipe
     lens = [sum(l[0]) for l in legs]
     total = 1
     for x in lens:
@@ -170,10 +193,11 @@ def pipe_oracle(case, r):
         return probs
     # fusion rule on every index
     for t, k in zip(tuples, mif):
-        want = [sum(legs[l][2] * r['leg_qflat'][l][t[l]][c] for l in range(nl_)) for c in range(len(mods))]
+        want = [sum(legs[l][2] * leg_qflat[l][t[l]][c] for l in range(nl_)) for c in range(len(mods))]
         got = [case['qconj'] * x for x in r['qflat'][k]]
         if not mod_eq(mods, want, got):
-            probs.append((None, 'fusion rule violated at incoming %s -> %d' % (list(t), k)))
+            probs.append((None, 'fusion rule violated at incoming indices %s -> outgoing index %d: qconj*charge of the pipe %s, '
+                                'sum of qconj_l*charge_l of the incoming legs %s (mod %s)' % (list(t), k, got, want, mods)))
             break
     # charges valid
     for c in r['charges']:
@@ -242,6 +266,19 @@ def pipe_oracle(case, r):
         probs.append((None, 'test_sanity of the pipe fails: %s' % r['sane']))
     if not r['qind_ok']:
         probs.append((None, '_map_incoming_qind does not find the q_map row of a block tuple'))
+    return probs
+
+
+def pipe_oracle(case, r):
+    """returns list of (match_key or None, text)"""
+    probs = pipe_core_oracle(case, r)
+    if None in r['mif'] or sorted(r['mif']) != list(range(r['ind_len'])):
+        return probs
+    mods = case['mods']
+    legs = case['legs']
+    sl = r['slices']
+    if not c06_ops.same_legs(mods, r['legs'], legs) or not r['attrs_ok']:
+        probs.append((None, 'the pipe does not store the legs it was built from: %s' % (r['legs'],)))
     # conj
     c = r['conj']
     if (c['qconj'] != -case['qconj'] or c['legs_qconj'] != [-l[2] for l in legs] or not c['charges_same']
@@ -367,7 +404,8 @@ def leg_oracle(case, r):
 
 # ------------------------------------------------------------------------------------------------
 
-CMP_KEYS = ('charges', 'slices', 'q_map', 'q_map_slices', 'sorted', 'bunched', 'ind_len', 'mif', 'qflat', 'qind_ok', 'to_leg')
+CMP_KEYS = ('charges', 'slices', 'q_map', 'q_map_slices', 'sorted', 'bunched', 'ind_len', 'mif', 'qflat', 'qind_ok', 'to_leg',
+            'legs', 'attrs_ok', 'ops')
 
 
 def run_chunks(script, kind, cases, config, optimize0=True):
@@ -389,6 +427,42 @@ def run_chunks(script, kind, cases, config, optimize0=True):
         for j, x in enumerate(r):
             out[i + j * n] = x
     return out, None
+
+
+def default_mask(n):
+    return [((5 * i + n) % 3) != 0 for i in range(n)]      # the mask c06ops_impl.py uses for LegPipe.project
+
+
+def merge_seen(total, seen):
+    for k, v in seen.items():
+        t = total.setdefault(k, [0, 0, 0])
+        for i in range(3):
+            t[i] += v[i]
+
+
+def coverage_table(ctx, cls, tables, seen, expect):
+    """reflection table of the public names of `cls` + how often each leg-returning method was applied in this run"""
+    if not tables:
+        ctx.fail('correspondence', 'no reflection table of %s came back from the runner' % cls, None)
+        return None
+    table = tables[0]
+    if any(t != table for t in tables[1:]):
+        ctx.notes.append('reflection tables of %s differ between runner processes (object dependent results)' % cls)
+    for t in c06_ops.table_problems(table, expect):
+        ctx.fail('correspondence', '%s: %s' % (cls, t), None)
+    for n in sorted(expect):
+        if seen.get(n, [0])[0] == 0:
+            ctx.fail('correspondence', '%s.%s was never applied by the method stream' % (cls, n), None)
+    for t in c06_ops.table_notes(table, cls):
+        if t not in ctx.notes:
+            ctx.notes.append(t)
+    out = {}
+    for n, e in sorted(table.items()):
+        e = dict(e)
+        if n in seen:
+            e['results_checked'], e['pipe_results_checked'], e['array_split_checks'] = seen[n]
+        out[n] = e
+    return out
 
 
 def rand_array_case(rng, seed):
@@ -440,7 +514,7 @@ def rand_array_case(rng, seed):
 
 def main(ctx):
     rng = ctx.rng
-    ctx.proof = common.check_proofs('C06', extra_targets=['Model/PipeCase.vo'])
+    ctx.proof = common.check_proofs('C06', extra_targets=['Model/PipeCase.vo', 'Model/PipeOps.vo'])
     boost = 1 if ctx.proof.ok else 3
     thorough = ctx.thorough()
     # ---------------- pipes: exhaustive small domains + random larger ones
@@ -465,6 +539,7 @@ def main(ctx):
             stride_note.append('%s: complete (%d)' % (name, len(ex)))
         pipes += ex
         n_ex += len(ex)
+    n_enum_end = len(pipes)
     nrand = ctx.pick(1000, 6000) * boost
     for _ in range(nrand):
         c = rand_pipe(rng, maxlegs=4)
@@ -473,6 +548,16 @@ def main(ctx):
             tot *= sum(l[0])
         if tot <= 64:
             pipes.append(c)
+    # method stream: every public method that returns a leg is applied to every pipe; for a budgeted subset an Array
+    # carrying each resulting pipe is split / recombined (all random pipes + a stride of the enumeration)
+    narr = ctx.pick(2200, 12000) * boost
+    stride = max(1, int(round(len(pipes) / float(narr))))
+    arr_off = rng.randrange(stride)
+    for i, c in enumerate(pipes):
+        if i >= n_enum_end or i % stride == arr_off:
+            c['arr_seed'] = ctx.seed * 7919 + i
+        if i < common.NPROC:
+            c['table'] = True
     res_py, err = run_chunks('c06_impl.py', 'pipe', pipes, 'py')
     if err:
         ctx.fail('correspondence', 'pipe runner (py) failed: ' + err[-600:], None)
@@ -484,6 +569,10 @@ def main(ctx):
         res_cy = [None] * len(pipes)
     lits = []
     lit_idx = []
+    op_lits = []
+    op_idx = []
+    tables = []
+    seen_pipe = {}
     hist = {'collisions': 0, 'single_block': 0, 'qconj-1': 0, 'zero_size': 0, 'nlegs': {}}
     for i, (case, r) in enumerate(zip(pipes, res_py)):
         if 'runner_error' in r:
@@ -501,6 +590,23 @@ def main(ctx):
                          {'stream': 'pipe', 'config': 'cy', 'case': case, 'py': {k: r[k] for k in diff}, 'cy': {k: rc.get(k) for k in diff}})
         for key, text in pipe_oracle(case, r):
             ctx.fail('oracle', text, {'stream': 'pipe', 'config': 'py', 'case': case}, match_key=key)
+        # every public method that returns a leg, applied to this pipe
+        if 'method_table' in r:
+            tables.append(r['method_table'])
+        mods = case['mods']
+        nlegs_ = [[l[0], [norm_charge(mods, c) for c in l[1]], l[2]] for l in case['legs']]
+        base = {'mods': mods, 'sizes': [b - a for a, b in zip(r['slices'], r['slices'][1:])], 'charges': r['charges'],
+                'qconj': case['qconj'], 'is_pipe': True, 'qflat': r['qflat'], 'legs': nlegs_}
+        aux = {'mask': default_mask(r['ind_len']), 'extend_int': 1, 'extend_leg': nlegs_[0]}
+        oprobs, seen, coq_ops = c06_ops.ops_oracle(mods, base, aux, r['ops'], r, pipe_core_oracle)
+        merge_seen(seen_pipe, seen)
+        for key, text in oprobs[:6]:
+            ctx.fail('oracle', text, {'stream': 'pipe-methods', 'config': 'py', 'case': case}, match_key=key)
+        ctx.count('pipe-methods', case, nontrivial=len(r['q_map']) > 1 and any(any(c) for c in r['charges']),
+                  sample={'case': case, 'methods': sorted(seen)})
+        if coq_ops:
+            op_lits.append(pipe_ops_case_lit(case, coq_ops))
+            op_idx.append(i)
         nrows = len(r['q_map'])
         coll = nrows > len(r['charges'])
         hist['collisions'] += coll
@@ -521,7 +627,19 @@ def main(ctx):
         r = res_py[i]
         ctx.fail('correspondence', 'Model/Pipe.v and LegPipe disagree (charges/slices/q_map/q_map_slices/map_incoming_flat)',
                  {'stream': 'pipe', 'case': pipes[i], 'impl': {k: r[k] for k in ('charges', 'slices', 'q_map', 'q_map_slices', 'mif')}})
-    ctx.cov['traces_validated_against_impl'] = len(lits)
+    bad, err = common.coq_failing_indices('cases_c06_pipeops', ['Base.Prelude', 'Model.ChargeL', 'Model.Leg', 'Model.Pipe', 'Model.PipeCase',
+                                                                'Model.PipeOps'], 'check_pipe_ops_case', op_lits, shard=300)
+    if err:
+        ctx.fail('correspondence', 'pipe method model evaluation failed: ' + err[-600:], None)
+    for b in bad[:5]:
+        i = op_idx[b]
+        ctx.fail('correspondence', 'Model/PipeOps.v (copy / conj_pipe / flip_pipe) and LegPipe.copy / conj / flip_charges_qconj / outer_conj disagree '
+                 '(stored incoming legs, qconj, charges, slices, q_map, q_map_slices or map_incoming_flat of the result)',
+                 {'stream': 'pipe-methods', 'case': pipes[i],
+                  'impl': [[o['method'], o['variant'], o.get('legs')] for o in res_py[i]['ops']
+                           if o['method'] in ('copy', 'conj', 'flip_charges_qconj', 'outer_conj')]})
+    method_cov = {'LegPipe': coverage_table(ctx, 'LegPipe', tables, seen_pipe, c06_ops.EXPECT_PIPE)}
+    ctx.cov['traces_validated_against_impl'] = len(lits) + len(op_lits)
     ctx.cov['pipe_enumeration'] = stride_note
     ctx.cov['input_distribution'] = hist
     # ---------------- leg operations
@@ -542,12 +660,16 @@ def main(ctx):
         mk = rng.choice([0.0, 0.3, 0.7, 1.0])
         lcases.append({'mods': mods, 'leg': l, 'mask': [rng.random() < mk for _ in range(n)],
                        'extra': rng.choice([0, 1, 3, rand_leg(rng, mods), rand_leg(rng, mods)])})
+    for c in lcases[:common.NPROC]:
+        c['table'] = True
     res_l, err = run_chunks('c06_impl.py', 'leg', lcases, 'py')
     if err:
         ctx.fail('correspondence', 'leg runner failed: ' + err[-600:], None)
         res_l = []
     lits = []
     lit_idx = []
+    tables = []
+    seen_leg = {}
     for i, (case, r) in enumerate(zip(lcases, res_l)):
         if 'runner_error' in r:
             ctx.fail('oracle', 'LegCharge operation raised on a valid leg: ' + r['runner_error'][-400:], {'stream': 'leg', 'case': case})
@@ -558,6 +680,18 @@ def main(ctx):
                     ctx.notes.append(text)
                 continue
             ctx.fail('oracle', text, {'stream': 'leg', 'case': case, 'impl_get_qindex': r['get_qindex']}, match_key=key)
+        if 'method_table' in r:
+            tables.append(r['method_table'])
+        mods = case['mods']
+        ex = case['extra']
+        base = {'mods': mods, 'sizes': case['leg'][0], 'charges': [norm_charge(mods, c) for c in case['leg'][1]],
+                'qconj': case['leg'][2], 'is_pipe': False,
+                'qflat': c06_ops.qflat_of(mods, case['leg'][0], case['leg'][1])}
+        aux = {'mask': case['mask'], 'extend_int': ex if isinstance(ex, int) else 1, 'extend_leg': None if isinstance(ex, int) else ex}
+        oprobs, seen, _ = c06_ops.ops_oracle(mods, base, aux, r['ops'], None, pipe_core_oracle)
+        merge_seen(seen_leg, seen)
+        for key, text in oprobs[:6]:
+            ctx.fail('oracle', text, {'stream': 'leg-methods', 'case': case}, match_key=key)
         ctx.count('leg', case, nontrivial=len(case['leg'][0]) > 1, sample={'case': case, 'sort': r['sort_1'], 'bunch': r['bunch']})
         lits.append(leg_case_lit(case, r))
         lit_idx.append(i)
@@ -570,6 +704,8 @@ def main(ctx):
         ctx.fail('correspondence', 'Model/Leg.v and LegCharge disagree (sort/bunch/project/extend/flip/get_qindex/perm_flat)',
                  {'stream': 'leg', 'case': lcases[i], 'impl': res_l[i]})
     ctx.cov['traces_validated_against_impl'] += len(lits)
+    method_cov['LegCharge'] = coverage_table(ctx, 'LegCharge', tables, seen_leg, c06_ops.EXPECT_LEG) if res_l else None
+    ctx.cov['leg_method_coverage'] = method_cov
     # ---------------- arrays: combine_legs / split_legs / sort_legcharge / as_completely_blocked, both configs
     acases = [c['case'] for c in common.corpus_cases('C06') if c.get('stream') == 'array']
     na = ctx.pick(300, 2000) * boost
@@ -608,5 +744,10 @@ def main(ctx):
 RULE = ('pipe: enumeration of all pipes over small legs (domains listed in coverage.pipe_enumeration: U(1)/Z_2/Z_3/two charges/no charge, 1-3 legs, '
         '<= 3 blocks, sizes 0-2, both directions of every leg and of the pipe, sort/bunch on/off; strided when larger than the tier budget) plus '
         'random 1-4 leg pipes; every index tuple of every pipe is compared; non-trivial = more than one block tuple.  leg: enumerated + random legs '
-        'x random mask/extension.  array: random rank 2-4 tensors x random leg groupings/new_axes/qconj/given pipes, python and compiled; '
+        'x random mask/extension.  pipe-methods / leg-methods: every public LegCharge / LegPipe method that returns a leg (found by reflection, '
+        'table in coverage.leg_method_coverage) applied to every pipe of the pipe stream and every leg of the leg stream; every resulting LegPipe '
+        'has to obey the pipe contract (fusion rule recomputed from its stored incoming legs, bijection, q_map layout), the documented effect of '
+        'the method on charges / direction / incoming legs, and - for all random pipes and a stride of the enumeration - an Array carrying it has '
+        'to split into the stored legs with the dense-reshape entries and recombine; non-trivial = more than one block tuple and a non-zero charge.  '
+        'array: random rank 2-4 tensors x random leg groupings/new_axes/qconj/given pipes, python and compiled; '
         'non-trivial = more than one stored block.')
